@@ -20,7 +20,7 @@ func init() {
 
 func runC18(r *core.Run) {
 	p := r.Prog
-	r.Rule("R18.1", "ids are minted by one atomic add whose result is the id", 2, true)
+	r.Rule("R18.1", "ids are minted by one atomic add whose result is the id", 1, true)
 	r.Rule("R18.2", "an id is put back at most once per holder", 1, true)
 	r.Rule("R18.4", "every holder gets its own, freshly allocated Name", 1, false)
 	r.Rule("R18.3", "a name's text and id come from one Get; Name fields are written nowhere else", 3, true)
